@@ -26,6 +26,9 @@ type built struct {
 	Forced    bool
 	ForceGap  int64 // ns between the first CloseWrite and the forced Close
 	MaxRead   int
+	Weak      bool  // the dialled connection carries TLS: only ciphertext lengths are seen there
+	CipherW   int64 // ciphertext bytes written to / read from the dialled connection (whole connection)
+	CipherR   int64
 	TReq      int64 // time of the proxy's first read on the client connection (lower bound of readRequest's t0)
 	TResp     int64 // time of its last read before the reply (lower bound of writeResponse's time.Now())
 	Inferred  int
@@ -50,6 +53,8 @@ func buildTrace(sc *scenario) built {
 	}
 	hC := int64(len(sc.head))
 	hT := int64(sc.farHead)
+	weak := sc.Mode == "uphttps" || sc.Mode == "upgradetls"
+	b.Weak = weak
 	var r0, r0f, w0f int64
 	for _, e := range evs {
 		if e.Seq > replySeq {
@@ -64,13 +69,23 @@ func buildTrace(sc *scenario) built {
 			r0 += int64(e.N)
 		case e.Who == "DC" && e.Op == "R":
 			r0f += int64(e.N)
+			if weak {
+				b.CipherR += int64(e.N) // handshake, reply head and whatever tunnel bytes net/http's transport read ahead
+			}
 		case e.Who == "DC" && e.Op == "W":
 			w0f += int64(e.N)
+			if weak {
+				b.CipherW += int64(e.N)
+			}
 		}
 	}
 	if r0 < hC {
 		prob("proxy replied after reading %d bytes, request head has %d", r0, hC)
 		return b
+	}
+	if weak {
+		// TLS records on the dialled side: byte counts there say nothing about the plaintext
+		r0f, w0f = hT, int64(sc.farPre)
 	}
 	if w0f != int64(sc.farPre) {
 		prob("proxy wrote %d bytes upstream before replying, the far endpoint parsed a preamble of %d", w0f, sc.farPre)
@@ -115,6 +130,7 @@ func buildTrace(sc *scenario) built {
 	ctReads := 0
 	keptPending := b.KeptN > 0
 	cwDone := [2]bool{}
+	readEnded := [2]bool{} // the copier of that direction has seen end-of-stream: its loop is over
 	var firstCW int64 = -1
 	closedSide := [2]bool{}
 	for _, e := range evs {
@@ -157,6 +173,25 @@ func buildTrace(sc *scenario) built {
 				continue
 			}
 			// tunnel phase
+			if weak && e.Who == "DC" {
+				// hidden side: the completion in coq/g03/Weak.v re-inserts the proxy's operations
+				switch e.Op {
+				case "R":
+					b.CipherR += int64(e.N)
+				case "W":
+					b.CipherW += int64(e.N)
+				case "C":
+					// (tls.Conn.CloseWrite is a close_notify record, i.e. a plain write here: whether the
+					// client-to-target copier has finished cannot be seen on this side)
+					if !cwDone[TC] && !b.Forced {
+						b.Forced = true
+						if firstCW >= 0 {
+							b.ForceGap = e.T - firstCW
+						}
+					}
+				}
+				continue
+			}
 			rd, wd := CT, TC // LC: reads feed CT, writes deliver TC
 			side := 1
 			if e.Who == "DC" {
@@ -173,15 +208,16 @@ func buildTrace(sc *scenario) built {
 				}
 				add(Label{K: "read", D: rd, N: e.N, Data: e.Data})
 			case "Reof":
-				if cwDone[rd] {
+				if cwDone[rd] || readEnded[rd] {
 					// not the copier: it has finished this direction. (A CONNECT request declaring a
 					// Content-Length has its "body" closed, i.e. drained, when the handler returns.)
 					b.PostReads++
 					continue
 				}
+				readEnded[rd] = true
 				add(Label{K: "readeof", D: rd})
 			case "Rerr", "Werr":
-				if e.Op == "Rerr" && cwDone[rd] {
+				if e.Op == "Rerr" && (cwDone[rd] || readEnded[rd]) {
 					b.PostReads++
 					continue
 				}
@@ -212,7 +248,7 @@ func buildTrace(sc *scenario) built {
 				add(Label{K: "closewrite", D: wd})
 			case "C":
 				tick(e.T)
-				if !(cwDone[0] && cwDone[1]) && !b.Forced {
+				if !(cwDone[TC] && (weak || cwDone[CT])) && !b.Forced {
 					b.Forced = true
 					if firstCW >= 0 {
 						b.ForceGap = e.T - firstCW
